@@ -197,7 +197,7 @@ theorem C01_deep (x : Item) (h : wfItem envJson x = true) : roundTrip envJson x 
 
 /-- … in particular nothing is dropped: what survives the normal form survives the round trip, at
 every depth (stated for any parametrisation of the model) -/
-theorem C01_deep_generic (E : Env) (x : Item) (h : wfItem E x = true) : roundTrip E x = normJ x :=
+theorem C01_deep_generic (E : Env) (x : Item) (h : wfItem E x = true) : roundTrip E x = normX (enc E) x :=
   deep_roundtrip E x h
 
 /-! non-vacuity: a Create activity embedding a Note by value, with a language map, recipients and a tag
